@@ -196,5 +196,6 @@ func TestC08(t *testing.T) {
 	r.Require("env_cross_domain_rejected", 50)
 	r.Require("env_foreign_splice_rejected", 100)
 	r.Require("collide_pairs_rejected", 50)
+	r.Require("collide_sealed_triple_accepted", 50)
 	r.Require("books_reencoded_envelope_checked", 10)
 }
